@@ -1,9 +1,23 @@
 package main
 
 // E1 (part 1): SSA isomorphism between a fork function and its reference counterpart.
+//
+// Canonical form of a function: blocks in DFS order; inside a block only the *barriers*
+// (stores, calls, map updates, control transfers, …) are listed, in order; every operand is
+// printed as the hash of its expression tree, where pure instructions are inlined, loads are
+// tagged with the barrier epoch they execute in (so two loads of one address with no barrier in
+// between are one value, and re-ordering pure computations or introducing/removing
+// single-assignment temporaries is invisible), allocations and phis are numbered at first use,
+// parameters by position. Package paths of fork and reference are mapped onto one name,
+// context.Context parameters/arguments are dropped, struct fields go by name.
+// Equal canonical texts imply equal behaviour up to the position of a run-time panic of a pure
+// operation relative to neighbouring side effects.
 
 import (
+	"crypto/sha1"
+	"encoding/hex"
 	"fmt"
+	"go/token"
 	"go/types"
 	"sort"
 	"strings"
@@ -34,6 +48,13 @@ func isCtxType(t types.Type) bool {
 	return t != nil && t.String() == "context.Context"
 }
 
+func isPtrToCtx(t types.Type) bool {
+	if p, ok := t.(*types.Pointer); ok {
+		return isCtxType(p.Elem())
+	}
+	return false
+}
+
 func normType(t types.Type) string {
 	if t == nil {
 		return "<nil>"
@@ -47,10 +68,23 @@ func normType(t types.Type) string {
 }
 
 type canon struct {
-	n   int
-	ids map[ssa.Value]int
-	out []string // one line per instruction / block header
-	pos []ssa.Instruction
+	fn      *ssa.Function
+	out     []string          // canonical lines
+	pos     []ssa.Instruction // instruction behind each line (nil for headers)
+	memo    map[ssa.Value]string
+	ids     map[ssa.Value]int // identity-bearing values (allocs, phis, barrier results) numbered at first use
+	n       int
+	epoch   map[ssa.Instruction]string
+	blockNo map[*ssa.BasicBlock]int
+	dropped map[ssa.Value]bool // context values
+}
+
+func h(s string) string {
+	if len(s) <= 40 {
+		return s
+	}
+	sum := sha1.Sum([]byte(s))
+	return "#" + hex.EncodeToString(sum[:8])
 }
 
 func (c *canon) emit(ins ssa.Instruction, format string, a ...any) {
@@ -58,67 +92,168 @@ func (c *canon) emit(ins ssa.Instruction, format string, a ...any) {
 	c.pos = append(c.pos, ins)
 }
 
-func (c *canon) ref(v ssa.Value) string {
-	switch v := v.(type) {
-	case nil:
-		return "nil"
-	case *ssa.Const:
-		if v.Value == nil {
-			return "const(nil:" + normType(v.Type()) + ")"
-		}
-		return "const(" + v.Value.ExactString() + ":" + normType(v.Type()) + ")"
-	case *ssa.Function:
-		if v.Parent() != nil {
-			sub := canonFunc(v)
-			return "anon{" + strings.Join(sub.out, "\n") + "}"
-		}
-		return "func(" + normPath(v.String()) + ")"
-	case *ssa.Global:
-		return "global(" + normPath(v.String()) + ")"
-	case *ssa.Builtin:
-		return "builtin(" + v.Name() + ")"
-	}
+func (c *canon) id(v ssa.Value, prefix string) string {
 	id, ok := c.ids[v]
 	if !ok {
 		id = c.n
 		c.n++
 		c.ids[v] = id
 	}
-	return fmt.Sprintf("v%d", id)
+	return fmt.Sprintf("%s%d", prefix, id)
 }
 
-// canonFunc prints a function in canonical form: DFS block order, values numbered at first
-// use, fields by name, context.Context parameters and arguments dropped, package paths of
-// fork and reference mapped onto one name. Positions, local names and comments are invisible.
+func isBarrier(ins ssa.Instruction) bool {
+	switch x := ins.(type) {
+	case *ssa.Store, *ssa.MapUpdate, *ssa.Send, *ssa.Panic, *ssa.Return, *ssa.If, *ssa.Jump, *ssa.RunDefers, *ssa.Go, *ssa.Defer, *ssa.Call, *ssa.Select, *ssa.Next:
+		return true
+	case *ssa.UnOp:
+		return x.Op == token.ARROW
+	}
+	return false
+}
+
+// expr returns the canonical expression (hash) of a value.
+func (c *canon) expr(v ssa.Value) string {
+	if v == nil {
+		return "nil"
+	}
+	if s, ok := c.memo[v]; ok {
+		return s
+	}
+	if c.dropped[v] {
+		return "ctx"
+	}
+	var s string
+	switch x := v.(type) {
+	case *ssa.Const:
+		if x.Value == nil {
+			s = "const(nil:" + normType(x.Type()) + ")"
+		} else {
+			s = "const(" + x.Value.ExactString() + ":" + normType(x.Type()) + ")"
+		}
+	case *ssa.Function:
+		if x.Parent() != nil {
+			sub := canonFunc(x)
+			s = "anon{" + h(strings.Join(sub.out, "\n")) + "}"
+		} else {
+			s = "func(" + normPath(x.String()) + ")"
+		}
+	case *ssa.Global:
+		s = "global(" + normPath(x.String()) + ")"
+	case *ssa.Builtin:
+		s = "builtin(" + x.Name() + ")"
+	case *ssa.Parameter:
+		s = c.id(x, "param") // pre-numbered by position
+	case *ssa.FreeVar:
+		s = c.id(x, "free")
+	case *ssa.Alloc:
+		s = c.id(x, "alloc:"+normType(x.Type())+":")
+	case *ssa.MakeMap, *ssa.MakeSlice, *ssa.MakeChan:
+		var ops []string
+		var rands []*ssa.Value
+		for _, r := range x.(ssa.Instruction).Operands(rands) {
+			ops = append(ops, c.expr(*r))
+		}
+		s = c.id(x, fmt.Sprintf("%T:%s(%s):", x, normType(x.Type()), strings.Join(ops, ",")))
+	case *ssa.Phi:
+		s = c.id(x, "phi:"+normType(x.Type())+":")
+	case *ssa.Call:
+		s = c.id(x, "call")
+	case *ssa.Select, *ssa.Next, *ssa.Range:
+		s = c.id(x, fmt.Sprintf("%T", x))
+	case *ssa.FieldAddr:
+		st := x.X.Type().Underlying().(*types.Pointer).Elem().Underlying().(*types.Struct)
+		s = "&(" + c.expr(x.X) + ")." + st.Field(x.Field).Name()
+	case *ssa.Field:
+		st := x.X.Type().Underlying().(*types.Struct)
+		s = "(" + c.expr(x.X) + ")." + st.Field(x.Field).Name()
+	case *ssa.UnOp:
+		switch {
+		case x.Op == token.MUL:
+			s = "load@" + c.epoch[x] + "(" + c.expr(x.X) + ")"
+		case x.Op == token.ARROW:
+			s = c.id(x, "recv")
+		default:
+			s = x.Op.String() + "(" + c.expr(x.X) + "):" + normType(x.Type())
+		}
+	case *ssa.Lookup:
+		ok := ""
+		if x.CommaOk {
+			ok = ",ok"
+		}
+		s = "lookup" + ok + "@" + c.epoch[x] + "(" + c.expr(x.X) + "," + c.expr(x.Index) + ")"
+	case *ssa.MakeClosure:
+		var ops []string
+		for _, b := range x.Bindings {
+			if c.dropped[b] || isCtxType(b.Type()) || isPtrToCtx(b.Type()) {
+				continue
+			}
+			ops = append(ops, c.expr(b))
+		}
+		s = "closure(" + c.expr(x.Fn) + ")[" + strings.Join(ops, ",") + "]"
+	case *ssa.BinOp:
+		s = "(" + c.expr(x.X) + ")" + x.Op.String() + "(" + c.expr(x.Y) + "):" + normType(x.Type())
+	case *ssa.Extract:
+		s = fmt.Sprintf("extract%d(%s)", x.Index, c.expr(x.Tuple))
+	case *ssa.TypeAssert:
+		s = fmt.Sprintf("assert[%s,%v](%s)", normType(x.AssertedType), x.CommaOk, c.expr(x.X))
+	default:
+		// generic pure instruction: kind, type, operands
+		ins, ok := v.(ssa.Instruction)
+		if !ok {
+			s = fmt.Sprintf("%T:%s", v, normType(v.Type()))
+			break
+		}
+		var ops []string
+		var rands []*ssa.Value
+		for _, r := range ins.Operands(rands) {
+			if *r == nil {
+				ops = append(ops, "nil")
+			} else {
+				ops = append(ops, c.expr(*r))
+			}
+		}
+		s = fmt.Sprintf("%T[%s](%s)", v, normType(v.Type()), strings.Join(ops, ","))
+	}
+	s = h(s)
+	c.memo[v] = s
+	return s
+}
+
 func canonFunc(fn *ssa.Function) *canon {
-	c := &canon{ids: map[ssa.Value]int{}}
+	c := &canon{fn: fn, memo: map[ssa.Value]string{}, ids: map[ssa.Value]int{}, epoch: map[ssa.Instruction]string{}, blockNo: map[*ssa.BasicBlock]int{}, dropped: map[ssa.Value]bool{}}
+	k := 0
 	for _, p := range fn.Params {
 		if isCtxType(p.Type()) {
-			c.ids[p] = -1
+			c.dropped[p] = true
 			continue
 		}
-		c.ref(p)
+		c.ids[p] = k
+		k++
 		c.emit(nil, "param %s", normType(p.Type()))
 	}
+	k = 0
 	for _, fv := range fn.FreeVars {
 		if isCtxType(fv.Type()) || isPtrToCtx(fv.Type()) {
-			c.ids[fv] = -1
+			c.dropped[fv] = true
 			continue
 		}
-		c.ref(fv)
+		c.ids[fv] = k
+		k++
 		c.emit(nil, "freevar %s", normType(fv.Type()))
 	}
+	c.n = 0
+	// ids for params/freevars live in the same map but use distinct prefixes; restart the shared counter
 	if len(fn.Blocks) == 0 {
 		return c
 	}
 	var order []*ssa.BasicBlock
-	seen := map[*ssa.BasicBlock]int{}
 	var dfs func(b *ssa.BasicBlock)
 	dfs = func(b *ssa.BasicBlock) {
-		if _, ok := seen[b]; ok {
+		if _, ok := c.blockNo[b]; ok {
 			return
 		}
-		seen[b] = len(order)
+		c.blockNo[b] = len(order)
 		order = append(order, b)
 		for _, s := range b.Succs {
 			dfs(s)
@@ -128,125 +263,108 @@ func canonFunc(fn *ssa.Function) *canon {
 	if fn.Recover != nil {
 		dfs(fn.Recover)
 	}
+	// epochs: (block, number of barriers before the instruction)
 	for _, b := range order {
-		c.emit(nil, "B%d:", seen[b])
+		nb := 0
 		for _, ins := range b.Instrs {
-			c.instr(ins, seen)
+			c.epoch[ins] = fmt.Sprintf("%d.%d", c.blockNo[b], nb)
+			if isBarrier(ins) {
+				nb++
+			}
+			// allocations of context cells and stores into them are dropped
+			if a, ok := ins.(*ssa.Alloc); ok && isPtrToCtx(a.Type()) {
+				c.dropped[a] = true
+			}
 		}
-		s := " succs"
-		for _, sc := range b.Succs {
-			s += fmt.Sprintf(" B%d", seen[sc])
+	}
+	for _, b := range order {
+		c.emit(nil, "B%d:", c.blockNo[b])
+		for _, ins := range b.Instrs {
+			if phi, ok := ins.(*ssa.Phi); ok {
+				type e struct {
+					p int
+					v string
+				}
+				var es []e
+				for i, v := range phi.Edges {
+					es = append(es, e{c.blockNo[b.Preds[i]], c.expr(v)})
+				}
+				sort.Slice(es, func(i, j int) bool { return es[i].p < es[j].p })
+				var ops []string
+				for _, x := range es {
+					ops = append(ops, fmt.Sprintf("B%d:%s", x.p, x.v))
+				}
+				c.emit(ins, " %s = phi %s", c.expr(phi), strings.Join(ops, ","))
+				continue
+			}
+			if !isBarrier(ins) {
+				continue
+			}
+			c.barrier(ins)
 		}
-		c.emit(nil, "%s", s)
 	}
 	return c
 }
 
-func isPtrToCtx(t types.Type) bool {
-	if p, ok := t.(*types.Pointer); ok {
-		return isCtxType(p.Elem())
-	}
-	return false
-}
-
-func (c *canon) instr(ins ssa.Instruction, seen map[*ssa.BasicBlock]int) {
-	if _, ok := ins.(*ssa.DebugRef); ok {
-		return
-	}
-	var ops []string
+func (c *canon) barrier(ins ssa.Instruction) {
 	switch x := ins.(type) {
-	case *ssa.Phi:
-		type e struct {
-			p int
-			v string
+	case *ssa.Store:
+		if c.dropped[x.Addr] {
+			return
 		}
-		var es []e
-		for i, v := range x.Edges {
-			es = append(es, e{seen[x.Block().Preds[i]], c.ref(v)})
-		}
-		sort.Slice(es, func(i, j int) bool { return es[i].p < es[j].p })
-		for _, e := range es {
-			ops = append(ops, fmt.Sprintf("B%d:%s", e.p, e.v))
-		}
-		c.emit(ins, " %s = phi %s : %s", c.ref(x), strings.Join(ops, ","), normType(x.Type()))
-		return
+		c.emit(ins, " store %s <- %s", c.expr(x.Addr), c.expr(x.Val))
 	case ssa.CallInstruction:
 		cc := x.Common()
 		var s string
 		if cc.IsInvoke() {
-			s = "invoke " + c.ref(cc.Value) + "." + cc.Method.Name()
+			s = "invoke " + c.expr(cc.Value) + "." + cc.Method.Name()
 		} else {
-			s = "call " + c.ref(cc.Value)
+			s = "call " + c.expr(cc.Value)
 		}
+		var ops []string
 		for _, a := range cc.Args {
 			if isCtxType(a.Type()) {
 				continue
 			}
-			ops = append(ops, c.ref(a))
+			ops = append(ops, c.expr(a))
 		}
-		kind := fmt.Sprintf("%T", ins)
 		name := ""
 		if v, ok := ins.(ssa.Value); ok {
-			name = c.ref(v) + " = "
+			name = c.expr(v) + " = "
 		}
-		c.emit(ins, " %s%s %s(%s)", name, kind, s, strings.Join(ops, ","))
-		return
-	case *ssa.FieldAddr:
-		st := x.X.Type().Underlying().(*types.Pointer).Elem().Underlying().(*types.Struct)
-		c.emit(ins, " %s = fieldaddr %s.%s", c.ref(x), c.ref(x.X), st.Field(x.Field).Name())
-		return
-	case *ssa.Field:
-		st := x.X.Type().Underlying().(*types.Struct)
-		c.emit(ins, " %s = field %s.%s", c.ref(x), c.ref(x.X), st.Field(x.Field).Name())
-		return
-	case *ssa.MakeClosure:
-		for _, b := range x.Bindings {
-			if isCtxType(b.Type()) || isPtrToCtx(b.Type()) {
-				continue
+		c.emit(ins, " %s%T %s(%s)", name, ins, s, strings.Join(ops, ","))
+	case *ssa.If:
+		c.emit(ins, " if %s -> B%d B%d", c.expr(x.Cond), c.blockNo[x.Block().Succs[0]], c.blockNo[x.Block().Succs[1]])
+	case *ssa.Jump:
+		c.emit(ins, " jump B%d", c.blockNo[x.Block().Succs[0]])
+	case *ssa.Return:
+		var ops []string
+		for _, r := range x.Results {
+			ops = append(ops, c.expr(r))
+		}
+		c.emit(ins, " return %s", strings.Join(ops, ","))
+	case *ssa.MapUpdate:
+		c.emit(ins, " mapupdate %s[%s] <- %s", c.expr(x.Map), c.expr(x.Key), c.expr(x.Value))
+	case *ssa.Panic:
+		c.emit(ins, " panic %s", c.expr(x.X))
+	case *ssa.RunDefers:
+		c.emit(ins, " rundefers")
+	case *ssa.Send:
+		c.emit(ins, " send %s <- %s", c.expr(x.Chan), c.expr(x.X))
+	default:
+		var ops []string
+		var rands []*ssa.Value
+		for _, r := range ins.Operands(rands) {
+			if *r != nil {
+				ops = append(ops, c.expr(*r))
 			}
-			ops = append(ops, c.ref(b))
 		}
-		c.emit(ins, " %s = closure %s [%s]", c.ref(x), c.ref(x.Fn), strings.Join(ops, ","))
-		return
-	case *ssa.Alloc:
-		if isCtxType(x.Type().(*types.Pointer).Elem()) {
-			c.ids[x] = -1
-			return
+		name := ""
+		if v, ok := ins.(ssa.Value); ok {
+			name = c.expr(v) + " = "
 		}
-	case *ssa.Store:
-		if id, ok := c.ids[x.Addr]; ok && id == -1 {
-			return
-		}
+		c.emit(ins, " %s%T(%s)", name, ins, strings.Join(ops, ","))
 	}
-	var rands []*ssa.Value
-	rands = ins.Operands(rands)
-	for _, r := range rands {
-		if *r == nil {
-			ops = append(ops, "nil")
-			continue
-		}
-		ops = append(ops, c.ref(*r))
-	}
-	extra := ""
-	switch x := ins.(type) {
-	case *ssa.BinOp:
-		extra = x.Op.String()
-	case *ssa.UnOp:
-		extra = x.Op.String()
-		if x.CommaOk {
-			extra += ",ok"
-		}
-	case *ssa.Extract:
-		extra = fmt.Sprint(x.Index)
-	case *ssa.TypeAssert:
-		extra = normType(x.AssertedType) + fmt.Sprint(x.CommaOk)
-	}
-	name, ty := "", ""
-	if v, ok := ins.(ssa.Value); ok {
-		name = c.ref(v) + " = "
-		ty = " : " + normType(v.Type())
-	}
-	c.emit(ins, " %s%T %s(%s)%s", name, ins, extra, strings.Join(ops, ","), ty)
 }
 
 type FuncClass int
@@ -305,9 +423,8 @@ func (w *World) classify(pair int) *Classification {
 				first = min(len(a.out), len(b.out)) - 1
 				pr.FirstDif = fmt.Sprintf("bodies differ in length (%d vs %d canonical lines)", len(a.out), len(b.out))
 			} else {
-				pr.FirstDif = fmt.Sprintf("fork `%s` vs reference `%s`", clip(a.out[first], 160), clip(b.out[first], 160))
+				pr.FirstDif = fmt.Sprintf("first differing effect: fork `%s` vs reference `%s`", describeInstr(a.pos[first], a.out[first]), describeInstr(b.pos[first], b.out[first]))
 			}
-			// nearest instruction with a position at or after the first difference
 			pr.DifPos = w.pos(fn.Pos())
 			for i := first; i >= 0 && i < len(a.pos); i++ {
 				if a.pos[i] != nil && a.pos[i].Pos().IsValid() {
@@ -325,6 +442,18 @@ func (w *World) classify(pair int) *Classification {
 	}
 	sort.Strings(cl.Missing)
 	return cl
+}
+
+// describeInstr renders the SSA instruction itself (readable) next to its canonical hash line.
+func describeInstr(ins ssa.Instruction, canonLine string) string {
+	if ins == nil {
+		return clip(canonLine, 120)
+	}
+	s := ins.String()
+	if v, ok := ins.(ssa.Value); ok {
+		s = v.Name() + " = " + s
+	}
+	return clip(normPath(s), 140)
 }
 
 func clip(s string, n int) string {
